@@ -71,12 +71,16 @@ func (ex *Exec) intrinsic(caller *Frame, fn *ssa.Function, args []Value) (Value,
 		// property-relevant contract of the real body, proved separately by H_hash_contract).
 		if x := args[0].(*Term); !x.IsConst() && !ex.job.NoSummary {
 			ex.path.Summaries++
-			return ts.ZExt(ts.Apply("uf_blockHash", 16, ts.Extract(x, 47, 0)), 32), true
+			ap := ts.Apply("uf_blockHash", 16, ts.Extract(x, 47, 0))
+			ex.apps = append(ex.apps, ap)
+			return ts.ZExt(ap, 32), true
 		}
 	case "github.com/pierrec/lz4/v4/internal/lz4block.blockHashHC":
 		if x := args[0].(*Term); !x.IsConst() && !ex.job.NoSummary {
 			ex.path.Summaries++
-			return ts.ZExt(ts.Apply("uf_blockHashHC", 16, x), 32), true
+			ap := ts.Apply("uf_blockHashHC", 16, x)
+			ex.apps = append(ex.apps, ap)
+			return ts.ZExt(ap, 32), true
 		}
 	case "github.com/pierrec/lz4/v4/internal/lz4block.decodeBlock":
 		if fn.Blocks == nil {
